@@ -54,6 +54,7 @@ def _run_ops_impl(rng, nops, script=None):
     ops = []
     END = ("END",)
     val = [0]
+    finished = [False]
 
     def frame(code, id, payload=b""):
         with gw._receivelock:
@@ -69,7 +70,7 @@ def _run_ops_impl(rng, nops, script=None):
         return cb
 
     def do(op):
-        k, id = op[0], op[1]
+        k, id = op[0], (op[1] if len(op) > 1 else None)
         if k == 0:
             frame(gb.Message.CHANNEL_DATA, id, gb.dumps_internal(op[2]))
         elif k == 1:
@@ -81,8 +82,11 @@ def _run_ops_impl(rng, nops, script=None):
             else:
                 frame(gb.Message.CHANNEL_LAST_MESSAGE, id)
         elif k == 2:
-            held[id] = fac.new(id)
-            snap.pop(id, None)
+            try:
+                held[id] = fac.new(id)
+                snap.pop(id, None)
+            except OSError:
+                pass  # refused after the connection ended
         elif k == 3:
             ch = held.pop(id)
             snap[id] = (ch._closed, ch._receiveclosed.is_set(), len(ch._remoteerrors))
@@ -98,6 +102,9 @@ def _run_ops_impl(rng, nops, script=None):
                 errs_out[id] += 1
             except (held[id].TimeoutError, OSError):
                 pass
+        elif k == 6:
+            fac._finished_receiving()
+            finished[0] = True
         elif k == 5:
             try:
                 if op[2]:
@@ -108,7 +115,14 @@ def _run_ops_impl(rng, nops, script=None):
                 pass
 
     def legal(op):
-        k, id = op[0], op[1]
+        k = op[0]
+        if k == 6:
+            return not finished[0]
+        id = op[1]
+        if k in (0, 1) and finished[0]:
+            return False  # no receiver thread any more
+        if k == 2 and finished[0] and id in held:
+            return False
         if k == 2:
             # the model's LNew covers a fresh object under an id without a stale callback registration
             return not (id in fac._callbacks and id not in fac._channels)
@@ -126,7 +140,7 @@ def _run_ops_impl(rng, nops, script=None):
                 break
         else:
             id = rng.choice(IDS[:3] if rng.random() < 0.8 else IDS)
-            k = rng.choices([0, 1, 2, 3, 4, 5], [30, 8, 14, 6, 30, 8])[0]
+            k = rng.choices([0, 1, 2, 3, 4, 5, 6], [30, 8, 14, 6, 30, 8, 2])[0]
             if k == 0:
                 val[0] += 1
                 op = [0, id, val[0]]
@@ -134,6 +148,8 @@ def _run_ops_impl(rng, nops, script=None):
                 op = [1, id, rng.choice([0, 0, 1, 2])]
             elif k == 5:
                 op = [5, id, rng.choice([0, 1, 1])]
+            elif k == 6:
+                op = [6]
             else:
                 op = [k, id]
         if not legal(op):
@@ -213,6 +229,7 @@ def correspondence(ck, ok, prop, tier, replay=None):
         return
     bad = 0
     kinds = {}
+    ck.cov["chan_step_cases_with_loss"] = sum(1 for ops, _ in cases if [6] in ops)
     for (ops, dig), mo in zip(cases, mouts):
         for op in ops:
             kinds[op[0]] = kinds.get(op[0], 0) + 1
